@@ -189,3 +189,28 @@ Proof.
   split. { unfold farm_others0. repeat constructor; cbn; discriminate. }
   repeat split; discriminate.
 Qed.
+
+(* ---------- C05 / C08: the withdrawal TRANSACTION of the closed position goes through ---------- *)
+From MD.Proofs Require Import Redeemable.
+
+Definition redeem_check : bool :=
+  match genesis_world g0 with
+  | Err _ => false
+  | Ok w0 =>
+      let w2 := run (run w0 pre0) others0 in
+      match w_fault w2, run_tx w2 "alice" FM (WFm (FmPosWithdraw "u-p" None)) [] with
+      | None, Ok w3 =>
+          (bal (w_bank w3) "alice" lp0 =? bal (w_bank w2) "alice" lp0 + 500000) &&
+          (bal (w_bank w3) FM lp0 =? bal (w_bank w2) FM lp0 - 500000) &&
+          (0 <=? bal (w_bank w2) "alice" lp0) && (bal (w_bank w2) "alice" lp0 + 500000 <=? U128_MAX)
+      | _, _ => false
+      end
+  end.
+
+Definition redeem_statement : Prop :=
+  redeem_check = true /\ Forall op_ok (pre0 ++ others0).
+
+Lemma redeem_example : redeem_statement.
+Proof.
+  split; [vm_compute; reflexivity|]. vm_compute. repeat constructor; discriminate.
+Qed.
